@@ -17,7 +17,7 @@ EXPLANATION = 'theorems about the model of Portfolio.setup_optim_problem / io.ex
 
 
 def scenarios(seed, tier):
-    n = 120 if tier == 'quick' else 1500
+    n = 300 if tier == 'quick' else 3000
     rnd = random.Random(seed * 7919 + 1)
     for i in range(n):
         s = gen.gen_portfolio(random.Random(rnd.getrandbits(48)), tmax=12 if tier == 'quick' else 20)
